@@ -1,6 +1,6 @@
 (* C19 - try_first / try_last priorities are honoured among ready tasks. *)
 From Coq Require Import Sorting.Permutation.
-From Verif Require Import Base.Prelude Model.Sorter Proofs.SorterProofs Proofs.SorterTies Proofs.FactsSorter Gen.SorterFacts.
+From Verif Require Import Base.Prelude Model.Sorter Proofs.SorterProofs Proofs.SorterTies Proofs.SorterTrace Proofs.FactsSorter Gen.SorterFacts.
 Local Open Scope Z_scope.
 
 (* The scheduler's algorithm (sort the ready set, in any set-iteration order, by
@@ -76,6 +76,24 @@ Proof.
   repeat split; auto using sorter_default_ok.
 Qed.
 
+(* the validator the correspondence check runs over implementation traces (get_ready / done /
+   re-created graph, any length): accepted = every batch valid in the state reached; rejected =
+   rejected at the first batch that is not *)
+Theorem C19_trace_check_sound : forall ops s i,
+  check_trace s ops i = None ->
+  forall pre n b post, ops = pre ++ OGet n b :: post ->
+  (1 <= n)%nat /\ valid_batch (fold_left apply_op pre s) n b.
+Proof. exact check_trace_sound. Qed.
+
+Theorem C19_trace_check_first_offender : forall ops s i j,
+  check_trace s ops i = Some j ->
+  exists pre n b post, ops = pre ++ OGet n b :: post /\ j = (i + length pre)%nat /\
+    check_trace s pre i = None /\
+    ~ ((1 <= n)%nat /\ valid_batch (fold_left apply_op pre s) n b).
+Proof. exact check_trace_first_offender. Qed.
+
+Print Assumptions C19_trace_check_sound.
+Print Assumptions C19_trace_check_first_offender.
 Print Assumptions C19_marker_order_extracted.
 Print Assumptions C19_batches_differ_only_in_ties.
 Print Assumptions C19_get_ready_order_independent.
